@@ -175,11 +175,12 @@ var zzXPaths = []string{
 	"/R/T[not(x)]",
 	"/R/T[x='1'][@a='1']",
 	"//T[@a='1'][x]",
+	"/R/T[x='1'] [@a='1']",
 }
 
 // zzXBase: the same paths without the final step's predicates (the candidates), written out
 // by hand so that the reference does not depend on the code that splits the expression.
-var zzXBase = []string{"/R/T", "//T", "/R/T", "/R/*", "/R/T", "/R/Q/T", "//T", "/R/T", "/R/T", "//T"}
+var zzXBase = []string{"/R/T", "//T", "/R/T", "/R/*", "/R/T", "/R/Q/T", "//T", "/R/T", "/R/T", "//T", "/R/T"}
 
 // C04XmlSelect: the records the streaming reader delivers are exactly what the same xpath
 // selects on the fully loaded document: outermost candidates only, delivered iff they satisfy
@@ -215,6 +216,9 @@ func C04XmlSelect() {
 		if sel {
 			want = append(want, zzSer(c))
 		}
+	}
+	if zz.NondetBool("padded") {
+		xp = " " + xp + "\n" // surrounding whitespace is trimmed
 	}
 	sp, err := NewXMLStreamReader(&zzChunkReader{data: doc.write(nil), failAt: -1}, xp)
 	zz.Assume(err == nil)
@@ -337,13 +341,15 @@ func zzCount(n *Node) int {
 // on k.
 func C17Xml() {
 	N := zz.Param("N", 3)
-	xp := []string{"/R/T", "/R/T[x='1']"}[zz.NondetChoice("xpath", 2)]
+	xp := []string{"/R/T", "/R/T[x='1']", "/R/T[@a='1']", "/R/T[@a='1'][x='1']"}[zz.NondetChoice("xpath", 4)]
 	sepKind := zz.NondetChoice("sep", 3) // none, newline between records, text
 	sep := [][]byte{nil, []byte("\n"), []byte(" t ")}[sepKind]
 	doc := []byte("<R>")
 	doc = append(doc, sep...)
 	for i := 0; i < N; i++ {
-		doc = append(doc, []byte("<T><x>")...)
+		doc = append(doc, []byte("<T a=\"")...)
+		doc = append(doc, zzVal("av")...)
+		doc = append(doc, []byte("\"><x>")...)
 		doc = append(doc, zzVal("xv")...)
 		doc = append(doc, []byte("</x></T>")...)
 		doc = append(doc, sep...)
